@@ -1,0 +1,85 @@
+//! Verification seam (only compiled with `--cfg koto_verif`)
+//!
+//! The hash sets and maps used while parsing and compiling are keyed by `RandomState` in a normal
+//! build, i.e. by per-process, per-instance randomness. With the cfg flag set they're keyed by
+//! [SimHashState] instead, which takes its keys from a thread-local seed that a simulator sets,
+//! so that the one source of randomness in the compilation pipeline is decided by the simulator
+//! and an order-dependent result can be replayed exactly.
+
+use std::{
+    cell::Cell,
+    hash::{BuildHasher, Hasher},
+};
+
+thread_local! {
+    static HASH_SEED: Cell<u64> = const { Cell::new(0) };
+    static INSTANCE_COUNTER: Cell<u64> = const { Cell::new(0) };
+}
+
+/// Sets the seed from which the keys of all hash states created afterwards on this thread are
+/// derived, and restarts the per-instance counter.
+pub fn set_hash_seed(seed: u64) {
+    HASH_SEED.with(|s| s.set(seed));
+    INSTANCE_COUNTER.with(|c| c.set(0));
+}
+
+fn mix(mut z: u64) -> u64 {
+    z = z.wrapping_add(0x9e37_79b9_7f4a_7c15);
+    z = (z ^ (z >> 30)).wrapping_mul(0xbf58_476d_1ce4_e5b9);
+    z = (z ^ (z >> 27)).wrapping_mul(0x94d0_49bb_1331_11eb);
+    z ^ (z >> 31)
+}
+
+/// A `BuildHasher` with simulator-chosen keys; like `RandomState`, every instance gets its own key
+#[derive(Clone, Debug)]
+pub struct SimHashState {
+    key: u64,
+}
+
+impl Default for SimHashState {
+    fn default() -> Self {
+        let seed = HASH_SEED.with(|s| s.get());
+        let n = INSTANCE_COUNTER.with(|c| {
+            let n = c.get();
+            c.set(n + 1);
+            n
+        });
+        Self {
+            key: mix(seed ^ mix(n)),
+        }
+    }
+}
+
+impl BuildHasher for SimHashState {
+    type Hasher = SimHasher;
+
+    fn build_hasher(&self) -> SimHasher {
+        SimHasher { state: self.key }
+    }
+}
+
+/// The hasher produced by [SimHashState]
+#[derive(Clone, Debug)]
+pub struct SimHasher {
+    state: u64,
+}
+
+impl Hasher for SimHasher {
+    fn write(&mut self, bytes: &[u8]) {
+        for chunk in bytes.chunks(8) {
+            let mut word = [0u8; 8];
+            word[..chunk.len()].copy_from_slice(chunk);
+            self.state =
+                mix(self.state ^ u64::from_le_bytes(word)).wrapping_add(chunk.len() as u64);
+        }
+    }
+
+    fn finish(&self) -> u64 {
+        mix(self.state)
+    }
+}
+
+/// `std::collections::HashSet` keyed by [SimHashState]
+pub type HashSet<T> = std::collections::HashSet<T, SimHashState>;
+/// `std::collections::HashMap` keyed by [SimHashState]
+pub type HashMap<K, V> = std::collections::HashMap<K, V, SimHashState>;
